@@ -148,6 +148,8 @@ def plan_program(spec, plan_path):
                                   "need": "plan"}])
         elif kind in ("hold", "release"):
             body.append([kind])
+        elif kind == "fail_plan":
+            body.append(["fail", 1])
         elif kind == "glob_each":
             _, pattern, tname, subs = (item + [{}])[:4]
             sd = spec["steps"][tname]
